@@ -12,4 +12,5 @@ for p in "$@"; do
   ( cd /verif && bin/gvc check $p --tier quick 2>&1 | grep -E 'VIOLATION|KNOWN|ENGINE|^check' | cut -c1-400 ; echo "exit=${PIPESTATUS[0]}" )
   cp /tmp/seedev/$p.json /verif/evidence/$p.json 2>/dev/null
 done
+for f in /verif/replays/*/*.json; do [ -f "$f" ] && jq -r '"  replay: " + .obligation + " reproduced=" + (.reproduced|tostring) + " input=" + ((.input_hex // "")|tostring|.[0:60]) + " " + ((.detail // "")|.[0:160])' "$f"; done
 rm -rf /verif/replays/* 2>/dev/null
